@@ -1137,3 +1137,51 @@ def r_no_input_clamp(cx):
     cx.ob("R-NO-INPUT-CLAMP", "summary", True, "%d per-tuple loops of plane projections clamp no input coordinate" % loops,
           nontrivial=loops > 0)
     cx.count("R-NO-INPUT-CLAMP", "loops", loops)
+
+
+@rule("T-OMERC-UC", ["C05"])
+def t_omerc_uc(cx):
+    """EPSG Guidance Note 7-2 (method 9815): the u coordinate of the projection centre is
+        uc = (A / B) atan[ (D^2 - 1)^1/2 / cos(alpha_c) ] SIGN(phi_c)
+    with the one-argument arctangent of the quotient: for azimuths beyond +-90 degrees the cosine is negative and uc
+    changes sign. A two-argument arctangent `atan2((D^2-1)^1/2, cos(alpha_c))` agrees for |alpha_c| < 90 but is larger by
+    pi for the other azimuths - the projection centre then maps about pi A / B (20 000 km) away from the false origin.
+    In omerc's forward and inverse function no atan2 has the cosine of the azimuth as its second argument."""
+    from rules.inverse import _keys_deep as _kd
+
+    def _keys_deep(f, t):
+        ks = set(_kd(f, t))
+        mir.walk(t, lambda y: (ks.add(K._const_key(y[2][2])) if y[0] == "proj" and isinstance(y[2], tuple) and y[2][0] == "elem" and
+                               len(y[2]) > 2 and isinstance(y[2][2], tuple) and K._const_key(y[2][2]) else None) or True)
+        return ks
+    n = 0
+    for role, fn in (("fwd", "inner_op::omerc::fwd"), ("inv", "inner_op::omerc::inv")):
+        if not cx.f.has_fn(fn):
+            cx.ob("T-OMERC-UC", role, False, "anchor-missing: %s" % fn)
+            continue
+        f = cx.f.fn(fn)
+        bad = []
+        seen_atan = 0
+        for bb, t in f.calls():
+            c = f.callee(t) or ""
+            tail = c.rsplit("::", 1)[-1]
+            if tail not in ("atan2", "atan") or f.innermost_loop(bb) is not None:
+                continue
+            a = f.arg_terms(bb)
+            if tail == "atan2" and len(a) > 1:
+                x = mir.strip_refs(a[1])
+                if x[0] == "call" and isinstance(x[1], str) and x[1].rsplit("::", 1)[-1] == "cos" and "alpha" in _keys_deep(f, x):
+                    bad.append(t["span"])
+            if tail == "atan":
+                x = mir.strip_refs(a[0])
+                if x[0] == "bin" and x[1] == "Div" and "alpha" in _keys_deep(f, x[3]):
+                    seen_atan += 1
+        n += 1
+        ok = not bad and seen_atan > 0
+        cx.ob("T-OMERC-UC", role, ok,
+              "omerc %s: uc is (A / B) atan[(D^2 - 1)^1/2 / cos(alpha)] SIGN(latc), as published" % role if ok else
+              ("omerc %s computes the centre's u coordinate with atan2(.., cos(alpha)): for azimuths beyond +-90 degrees the "
+               "result is off by pi and the projection centre maps some 20 000 km from the false origin" % role if bad else
+               "anchor-missing: omerc %s has no atan[(..) / cos(alpha)] outside its loop" % role),
+              cx.where(bad[0]) if bad else cx.where(f.d["span"]))
+    cx.count("T-OMERC-UC", "functions", n)
